@@ -25,6 +25,10 @@ typedef struct istream_xfrm_t {
 	sqfs_istream_t *wrapped;
 	xfrm_stream_t *xfrm;
 
+	/* the decompressor consumed input, but did not see the end
+	   of the current stream/member yet */
+	bool mid_stream;
+
 	size_t buffer_offset;
 	size_t buffer_used;
 	sqfs_u8 uncompressed[BUFSZ];
@@ -67,8 +71,21 @@ static int precache(sqfs_istream_t *base)
 		if (ret == XFRM_STREAM_ERROR)
 			return SQFS_ERROR_COMPRESSOR;
 
+		if (ret == XFRM_STREAM_END) {
+			xfrm->mid_stream = false;
+		} else if (in_off > 0) {
+			xfrm->mid_stream = true;
+		}
+
 		xfrm->buffer_used = out_off;
 		xfrm->wrapped->advance_buffer(xfrm->wrapped, in_off);
+
+		/* no more input, space left in the output buffer, but the
+		   decompressor still expects more: the input is truncated */
+		if (mode == XFRM_STREAM_FLUSH_FULL && xfrm->mid_stream &&
+		    out_off < BUFSZ) {
+			return SQFS_ERROR_CORRUPTED;
+		}
 
 		if (ret == XFRM_STREAM_BUFFER_FULL || out_off >= BUFSZ)
 			break;
